@@ -64,7 +64,18 @@ theorem arrivalsOf_append (l1 l2 : List WOut) : arrivalsOf (l1 ++ l2) = arrivals
 
 /-- Outputs (of one actor) that carry neither an emitted event nor an arrival. -/
 def quiet (l : List Out) : Prop :=
-  ∀ o ∈ l, (∀ p e, o ≠ .ev (.emit p e)) ∧ (∀ e, o ≠ .ev (.supArrive e)) ∧ (∀ m e, o ≠ .eff (.monSend m e))
+  ∀ o ∈ l, (∀ p e, o ≠ .ev (.emit p e)) ∧ (∀ e, o ≠ .ev (.supArrive e)) ∧ (∀ m e, o ≠ .eff (.monSend m e)) ∧
+    (∀ c l, o ≠ .eff (.spawnChild c l))
+
+/-- No callback of the step spawned a child (`Fx.spawnChild`): the set of actors that have a cell does not
+change while the effects are routed. -/
+def noSpawn (l : List WOut) : Prop := ∀ o ∈ l, ∀ c loc, o.2 ≠ .eff (.spawnChild c loc)
+
+theorem noSpawn_tag_quiet (i : Nat) (l : List Out) (h : quiet l) : noSpawn (l.map (fun o => (i, o))) := by
+  intro o ho c loc
+  simp only [List.mem_map] at ho
+  obtain ⟨x, hx, rfl⟩ := ho
+  exact (h x hx).2.2.2 c loc
 
 theorem emitsOf_tag_quiet (i : Nat) (l : List Out) (h : quiet l) : emitsOf (l.map (fun o => (i, o))) = [] := by
   induction l with
@@ -74,7 +85,7 @@ theorem emitsOf_tag_quiet (i : Nat) (l : List Out) (h : quiet l) : emitsOf (l.ma
     have hl : quiet l := fun x hx => h x (by simp [hx])
     cases o with
     | ev e => cases e <;> first | (exact absurd rfl (ho.1 _ _)) | simpa [emitsOf] using ih hl
-    | eff x => cases x <;> first | (exact absurd rfl (ho.2.2 _ _)) | simpa [emitsOf] using ih hl
+    | eff x => cases x <;> first | (exact absurd rfl (ho.2.2.1 _ _)) | simpa [emitsOf] using ih hl
     | _ => simpa [emitsOf] using ih hl
 
 theorem arrivalsOf_tag_quiet (i : Nat) (l : List Out) (h : quiet l) : arrivalsOf (l.map (fun o => (i, o))) = [] := by
@@ -202,7 +213,7 @@ def deliverable (w : World) (l : List (Nat × SupEv)) : List (Nat × SupEv) := l
 the fuel: when the fuel sufficed, the arrivals produced are exactly the deliverable emitted events of
 the processed outputs, in order; the effects themselves emit nothing. -/
 theorem effects_cascade_delivery (fuel : Nat) :
-    (∀ w outs, (∀ p, (World.effects fuel w outs).1.hasCell p = w.hasCell p) ∧
+    (∀ w outs, noSpawn outs → (∀ p, (World.effects fuel w outs).1.hasCell p = w.hasCell p) ∧
       emitsOf (World.effects fuel w outs).2 = [] ∧
       (World.effectsDone fuel w outs = true →
         arrivalsOf (World.effects fuel w outs).2 = deliverable w (emitsOf outs)) ∧
@@ -211,7 +222,7 @@ theorem effects_cascade_delivery (fuel : Nat) :
       emitsOf (World.cascade fuel w kids).2 = [] ∧ arrivalsOf (World.cascade fuel w kids).2 = []) := by
   induction fuel with
   | zero =>
-    refine ⟨fun w outs => ⟨fun _ => rfl, rfl, ?_, fun _ => rfl⟩, fun w kids => ⟨fun _ => rfl, rfl, rfl⟩⟩
+    refine ⟨fun w outs _ => ⟨fun _ => rfl, rfl, ?_, fun _ => rfl⟩, fun w kids => ⟨fun _ => rfl, rfl, rfl⟩⟩
     intro hd
     cases outs with
     | nil => rfl
@@ -219,11 +230,12 @@ theorem effects_cascade_delivery (fuel : Nat) :
   | succ n ih =>
     obtain ⟨ihe, ihc⟩ := ih
     constructor
-    · intro w outs
+    · intro w outs hns
       cases outs with
       | nil => exact ⟨fun _ => rfl, rfl, fun _ => rfl, fun _ => rfl⟩
       | cons o rest =>
         obtain ⟨src, o⟩ := o
+        have hnsr : noSpawn rest := fun x hx => hns x (by simp [hx])
         -- the effect of the head output
         have head : ∃ r : World × List WOut,
             World.effects (n + 1) w ((src, o) :: rest) =
@@ -258,6 +270,7 @@ theorem effects_cascade_delivery (fuel : Nat) :
                 (apply_quiet w p _ (Or.inr (Or.inr (Or.inl ⟨src, rfl⟩)))).1,
                 by simpa [deliverable, emitsOf] using (apply_quiet w p _ (Or.inr (Or.inr (Or.inl ⟨src, rfl⟩)))).2,
                 fun h => by simpa [World.effectsDone] using h⟩
+            | spawnChild c loc => exact absurd rfl (hns (src, _) (by simp) c loc)
             | monSend m e =>
               have ha := apply_supArrive w m e
               have hdel : arrivalsOf (w.apply m (.supArrive e)).2 = deliverable w (emitsOf [(src, Out.eff (.monSend m e))]) := by
@@ -275,7 +288,7 @@ theorem effects_cascade_delivery (fuel : Nat) :
                 · rw [emitsOf_append, ha.1, hq.1]; rfl
                 · rw [arrivalsOf_append, hq.2, List.append_nil]; exact hdel
         obtain ⟨r, hr, h1, h2, h3, h4⟩ := head
-        obtain ⟨e1, e2, e3, e4⟩ := ihe r.1 rest
+        obtain ⟨e1, e2, e3, e4⟩ := ihe r.1 rest hnsr
         rw [hr]
         have hsplit : emitsOf ((src, o) :: rest) = emitsOf [(src, o)] ++ emitsOf rest := by
           rw [← emitsOf_append]; rfl
@@ -297,7 +310,12 @@ theorem effects_cascade_delivery (fuel : Nat) :
       | cons c cs =>
         simp only [World.cascade]
         have ha := apply_quiet w c .treeTaken (Or.inl rfl)
-        obtain ⟨e1, e2, _, e4⟩ := ihe (w.apply c .treeTaken).1 (w.apply c .treeTaken).2
+        have hq : noSpawn (w.apply c .treeTaken).2 := by
+          unfold World.apply
+          split
+          · exact noSpawn_tag_quiet c _ (step_quiet _ _ (Or.inl rfl))
+          · intro o ho; cases ho
+        obtain ⟨e1, e2, _, e4⟩ := ihe (w.apply c .treeTaken).1 (w.apply c .treeTaken).2 hq
         -- the nested effects process only quiet outputs: no emitted event, so no arrival
         have e3 : arrivalsOf (World.effects n (w.apply c .treeTaken).1 (w.apply c .treeTaken).2).2 = [] := e4 ha.1
         obtain ⟨c1, c2, c3⟩ := ihc (World.effects n (w.apply c .treeTaken).1 (w.apply c .treeTaken).2).1 cs
@@ -336,6 +354,26 @@ theorem apply_frame (w : World) (j : Nat) (op : AOp) (h : AOp.isRouted op = true
     · simp only []; exact get_set_other _ _ hij
   · rfl
 
+theorem apply_spawnInstant_frame (w1 : World) (c src : Nat) (loc : Bool) (i : Nat)
+    (hout : ∀ x ∈ (w1.apply c (.spawnInstant (some src) none true loc)).2, x.1 ≠ i) :
+    (w1.apply c (.spawnInstant (some src) none true loc)).1.get i = w1.get i := by
+  unfold World.apply at hout ⊢
+  split
+  · rename_i hc
+    simp only [hc, ↓reduceIte] at hout
+    by_cases hic : i = c
+    · subst hic
+      exfalso
+      have hne : ((w1.get i).step (.spawnInstant (some src) none true loc)).2 ≠ [] := by
+        rw [step_eq]
+        simp only [Actor.stepCore, opSpawnInstant]
+        (repeat' split) <;> simp
+      cases hl : ((w1.get i).step (.spawnInstant (some src) none true loc)).2 with
+      | nil => exact hne hl
+      | cons o l => exact hout (i, o) (by simp [hl]) rfl
+    · simp only []; exact get_set_other _ _ hic
+  · rfl
+
 theorem effects_cascade_frame (fuel : Nat) (i : Nat) :
     (∀ w outs, (∀ o ∈ (World.effects fuel w outs).2, o.1 ≠ i) → (World.effects fuel w outs).1.get i = w.get i) ∧
     (∀ w kids, (∀ o ∈ (World.cascade fuel w kids).2, o.1 ≠ i) → (World.cascade fuel w kids).1.get i = w.get i) := by
@@ -365,6 +403,13 @@ theorem effects_cascade_frame (fuel : Nat) (i : Nat) :
           | cascade kids => exact hsplit _ hi (ihc w _ (fun x hx => hi x (by simp [hx])))
           | link p => exact hsplit _ hi (apply_frame w _ _ rfl i (fun x hx => hi x (by simp [hx])))
           | unlink p => exact hsplit _ hi (apply_frame w _ _ rfl i (fun x hx => hi x (by simp [hx])))
+          | spawnChild c loc =>
+            refine hsplit _ hi ?_
+            have hslot : (if c = w.actors.length then ({ w with actors := w.actors ++ [Actor.init c] } : World) else w).get i = w.get i := by
+              split
+              · rename_i h; exact get_addSlot w c i h
+              · rfl
+            rw [apply_spawnInstant_frame _ c src loc i (fun x hx => hi x (by simp [hx])), hslot]
           | monSend m e =>
             by_cases hpo : (w.get m).portsOpen = true
             · simp only [hpo, ↓reduceIte] at hi ⊢
@@ -398,7 +443,7 @@ theorem hasCell_tables (w : World) (op : Op) (outs : List WOut) (p : Nat) :
 replayed step), the supervision arrivals among the other actors' outputs are exactly the events the
 target emitted in this step whose target has a cell — same events, same order, each once — and the
 effects emit no further event. -/
-theorem step_delivery (w : World) (op : Op) (hd : w.stepDone op = true) :
+theorem step_delivery (w : World) (op : Op) (hd : w.stepDone op = true) (hns : noSpawn (w.step op).2.1) :
     arrivalsOf (w.step op).2.2 = deliverable (w.step op).1 (emitsOf (w.step op).2.1) ∧
     emitsOf (w.step op).2.2 = [] := by
   unfold World.step World.stepDone at *
@@ -409,11 +454,11 @@ theorem step_delivery (w : World) (op : Op) (hd : w.stepDone op = true) :
     split
     · exact ⟨rfl, rfl⟩
     · rename_i a aop htgt
-      simp only [htgt] at hd
-      simp only []
-      generalize (if a = w.actors.length then ({ w with actors := w.actors ++ [Actor.init a] } : World) else w) = w0 at hd ⊢
+      simp only [htgt] at hd hns
+      simp only [] at hns ⊢
+      generalize (if a = w.actors.length then ({ w with actors := w.actors ++ [Actor.init a] } : World) else w) = w0 at hd hns ⊢
       obtain ⟨e1, e2, e3, _⟩ := (effects_cascade_delivery
-        (4 * (w0.actors.length + 1) * ((w0.apply a aop).2.length + 1) + 8)).1 (w0.apply a aop).1 (w0.apply a aop).2
+        (4 * (w0.actors.length + 1) * ((w0.apply a aop).2.length + 1) + 8)).1 (w0.apply a aop).1 (w0.apply a aop).2 hns
       refine ⟨?_, e2⟩
       rw [e3 hd]
       simp only [deliverable]
